@@ -261,7 +261,7 @@ Definition qtm_init (window_bits : N) : qst :=
      m6l := init_model 0 27; m7 := init_model 0 7; optr := 0; oend := 0; err := 0 |}.
 
 Definition qtm_call (s : qst) (i : ist) (n : N) : N * qst * ist :=
-  match ideal EofPad2 (decompress n s) i with
+  match ideal EofPad2 0 (decompress n s) i with
   | (SVal (inl e), i') => (e, s <| err := e |>, i')
   | (SVal (inr (_, s')), i') => (0, s', i')
   | (SStop e, i') => (e, s <| err := e |>, i')
